@@ -119,6 +119,12 @@ Definition read_features (s : list sitem) : option (features * list sitem) :=
 (* DecodeElement(&TLSProceed): name-checked *)
 Definition read_proceed (s : list sitem) : option (list sitem) :=
   match s with SProceed :: r => Some r | _ => None end.
+(* The connection itself ended where an element was awaited: the script is over (the peer
+   went away) or the connection is cut.  The cause of the failed read is then the
+   connection, not what the server sent (a </stream:stream> IS something the server
+   sent: "stream closed by the server"). *)
+Definition is_cut (s : list sitem) : bool :=
+  match s with [] | SEof :: _ => true | _ => false end.
 (* NextPacket: which items decode to a packet at all *)
 Definition np_ok (i : sitem) : bool :=
   match i with
@@ -242,7 +248,10 @@ Definition connect (cfg : config) (dial_ok tls_ok : bool) (p0 : persist) (s : li
       (* NewSession: a re-used Session starts with TlsEnabled cleared *)
       let p := set_flags p false false in
       match read_features s1 with
-      | None => (w0, Err true true, drop_session p)
+      | None =>
+          (* another element than the features: permanent; the connection cut before they
+             arrived: as transient as a cut before the stream header *)
+          (w0, Err true (negb (is_cut s1)), drop_session p)
       | Some (f, s2) =>
           (* startTlsIfSupported *)
           match f_tls f with
@@ -256,7 +265,7 @@ Definition connect (cfg : config) (dial_ok tls_ok : bool) (p0 : persist) (s : li
               match read_proceed s2 with
               | None =>
                   if c_insecure cfg then (w1, Err false false, with_session p)
-                  else (w1, Err true true, drop_session p)
+                  else (w1, Err true (negb (is_cut s2)), drop_session p)
               | Some s3 =>
                   if tls_ok then
                     let p := set_flags p true true in
